@@ -122,7 +122,7 @@ def shape3d(draw, bs, max_voxels=400_000, max_traces=None, magnitudes="all"):
         if kinds:
             k = draw(st.sampled_from(kinds))
             few = lambda b: draw(st.integers(2, min(6, max(2, b))))
-            many = lambda: draw(st.sampled_from([256, 256, 1024])) + draw(st.integers(1, 45))
+            many = lambda: draw(st.sampled_from([256, 1024])) + draw(st.integers(1, 45))
             if k == "il":
                 return (many(), few(bs[1]), min(few(bs[2]) + 2, 9))
             if k == "xl":
